@@ -155,6 +155,24 @@ def run(ctx):
     core.execute_and_validate(ctx, "C04", win, par=1)
     core.execute_and_validate(ctx, "C04", core.attend_scenarios(ctx, 40 if thorough else 12, 9100), par=4)
     core.execute_and_validate(ctx, "C04", core.detach_scenarios(ctx, 60 if thorough else 16, 9200), par=8)
+    # processor-pool growth: ProcGrowth.tla (liveness under fairness of joinStream and growProcs; mutant = a processor sleeping in
+    # blockGet is not counted as active) and the situation on the real pipeline
+    ctx.tlc_expect_ok("ProcGrowth", "ProcGrowth_ok.cfg", timeout=300, deadlock=False, name="ProcGrowth/faithful")
+    r = ctx.tlc("ProcGrowth", "ProcGrowth_mut.cfg", timeout=300, deadlock=False, name="ProcGrowth/mutant")
+    if r.ok or r.violated != "Attended":
+        raise vlib.Infra("spec mutant M_BlockedCountsAsActive is not rejected (violated=%s)" % r.violated)
+    procs = 2 * (os.cpu_count() or 8)           # runtime.GOMAXPROCS(0) * 2 in the harness process
+    if "GOMAXPROCS" in os.environ:
+        procs = 2 * int(os.environ["GOMAXPROCS"])
+    core.execute_and_validate(ctx, "C04", core.growprocs_scenarios(ctx, 6 if thorough else 2, 9400, procs), par=2)
+    judged = 0
+    for line in open(ctx._last_trace):
+        e = json.loads(line)
+        if e.get("ev") == "Attend" and "procs" in e and e.get("want") == 1:
+            judged += 1
+    if judged == 0:
+        raise vlib.Infra("the all-processors-blocked situation was never set up (processor count of the harness process differs from %d?)" % procs)
+    ctx.extra["all_processors_blocked_windows"] = judged
     scen = progress_scenarios(ctx, 400 if thorough else 100, 1)
     for i in range(0, len(scen), 100):
         core.execute_and_validate(ctx, "C04", scen[i:i + 100], par=6)
